@@ -52,7 +52,7 @@ Consume(e) ==
 
 \* the recorded post-state (every slot) and, for queries, the recorded result
 Matches(e) ==
-  /\ \A s \in 1..Len(e.post) : sk'[s] = e.post[s]
+  /\ "post" \in DOMAIN e => \A s \in 1..Len(e.post) : sk'[s] = e.post[s]   \* (parallel_add runs record only the final state)
   /\ e.ev = "query" => op'.out = e.out
 
 TStep ==
